@@ -57,6 +57,11 @@ func checkFuzzText(c fzCase) error {
 	if anyDeeperThan(mcase.Desc(c.Type), tc.M, 4) {
 		return nil // generator: Any nested 2 deep; the reference normaliser decodes every level again and again
 	}
+	if anyPayloadHasUnknown(mcase.Desc(c.Type), tc.M) {
+		// generator: the property speaks of content without unknown fields, and that includes the
+		// payload of an Any (the expanded text form cannot write fields its type does not declare)
+		return nil
+	}
 	if err := checkCase(tc); err != nil {
 		if strings.HasPrefix(err.Error(), "harness:") {
 			return nil // the model could not be rebuilt through reflection: no verdict
@@ -64,6 +69,68 @@ func checkFuzzText(c fzCase) error {
 		return fmt.Errorf("input text %q parsed into %s: %w", clip(c.Text), c.Type, err)
 	}
 	return nil
+}
+
+// hasUnknownDeep reports whether m or any message below it holds unknown fields.
+func hasUnknownDeep(md protoreflect.MessageDescriptor, m *model.Msg) bool {
+	if m == nil {
+		return false
+	}
+	if len(m.Unknown) > 0 {
+		return true
+	}
+	for _, f := range m.Fields {
+		fd := model.FieldDesc(md, f.Num, nil)
+		if fd == nil {
+			continue
+		}
+		vd := fd
+		if fd.IsMap() {
+			vd = fd.MapValue()
+		}
+		if vd.Message() == nil {
+			continue
+		}
+		for _, v := range f.Vals {
+			if hasUnknownDeep(vd.Message(), v.M) {
+				return true
+			}
+		}
+	}
+	return false
+}
+
+// anyPayloadHasUnknown reports whether some Any in the tree carries a payload that decodes with
+// unknown fields (at any depth, nested Any payloads included).
+func anyPayloadHasUnknown(md protoreflect.MessageDescriptor, m *model.Msg) bool {
+	if m == nil {
+		return false
+	}
+	if md.FullName() == "google.protobuf.Any" {
+		if emd, emb, ok := gen.DecodeAny(m); ok {
+			return hasUnknownDeep(emd, emb) || anyPayloadHasUnknown(emd, emb)
+		}
+		return false
+	}
+	for _, f := range m.Fields {
+		fd := model.FieldDesc(md, f.Num, nil)
+		if fd == nil {
+			continue
+		}
+		vd := fd
+		if fd.IsMap() {
+			vd = fd.MapValue()
+		}
+		if vd.Message() == nil {
+			continue
+		}
+		for _, v := range f.Vals {
+			if anyPayloadHasUnknown(vd.Message(), v.M) {
+				return true
+			}
+		}
+	}
+	return false
 }
 
 // anyDeeperThan reports whether Any values are nested in Any payloads more than max deep.
